@@ -6,6 +6,7 @@ package c13
 // specifications are produced.
 
 import (
+	"math/big"
 	"strconv"
 
 	"pgregory.net/rapid"
@@ -1015,6 +1016,31 @@ func genRange(x g) []spec.V {
 		return []spec.V{num("a"), num("b"), num("c"), num("d")}
 	case 9:
 		return []spec.V{num("start"), num("end"), numV(0)}
+	case 10:
+		// a short range far from zero: start and end are whole numbers that
+		// no float64 holds exactly (their difference is small), or a span that
+		// overflows float64 crossed in a few hundred huge steps
+		if x.oneIn(4, "hugespan") {
+			// -2^1023 .. 2^1023 in steps of 2^1016: 256 values
+			p := new(big.Int).Lsh(big.NewInt(1), 1023)
+			st := new(big.Int).Lsh(big.NewInt(1), uint(rapid.SampledFrom([]int{1016, 1015, 1018}).Draw(x.t, "stepexp")))
+			return []spec.V{spec.KnownNum(spec.NParse(new(big.Int).Neg(p).String())), spec.KnownNum(spec.NParse(p.String())), spec.KnownNum(spec.NParse(st.String()))}
+		}
+		base, _ := new(big.Int).SetString(rapid.SampledFrom([]string{"100000000000000000000", "36893488147419103232", "-100000000000000000000000000000", "9007199254740993", "18446744073709551616"}).Draw(x.t, "base"), 10)
+		a := int64(x.intn(-5, 9000, "a"))
+		span := int64(x.intn(0, 1100, "span"))
+		start := new(big.Int).Add(base, big.NewInt(a))
+		end := new(big.Int).Add(start, big.NewInt(span))
+		args := []spec.V{spec.KnownNum(spec.NParse(start.String())), spec.KnownNum(spec.NParse(end.String()))}
+		if x.oneIn(3, "down") {
+			args[0], args[1] = args[1], args[0]
+			if x.oneIn(2, "downstep") {
+				args = append(args, numV(-x.intn(1, 3, "step")))
+			}
+		} else if x.oneIn(2, "withstep") {
+			args = append(args, numV(x.intn(1, 7, "step")))
+		}
+		return args
 	default:
 		// three arguments, mostly with a step pointing the right way
 		s, e := num("start"), num("end")
